@@ -16,8 +16,9 @@ What is extracted (never by importing sqlframe, only from the Python ast):
 * which slot of the returned dict receives which component (`calcStartEnd`), the `kind` string and
   the argument order of `rowsBetween` / `rangeBetween`.
 * for every builder whether it works on `self.copy()` (immutability) and whether a repeated
-  `partitionBy` / `orderBy` extends or replaces; how `orderBy` treats an order expression that is not
-  an `exp.Ordered` (left bare, or wrapped with explicit `desc` / `nulls_first`).
+  `partitionBy` / `orderBy` extends or replaces; how `orderBy` treats an order key that is not
+  an `exp.Ordered` (left bare, or wrapped with explicit `desc` / `nulls_first`), decided separately for a plain
+  column reference and for any other expression from the `isinstance` chain of the rewrite.
 * `Column.asc/desc/asc_nulls_first/...`  ->  (desc, nulls_first) table;  `Column.over` copies the spec.
 
 Any other shape raises Untranslatable (the module is removed and every C08 theorem stops building).
@@ -352,12 +353,8 @@ def _body_lines(fn: ast.FunctionDef) -> t.List[str]:
 
 FLATTEN = "cols = flatten(cols) if isinstance(cols[0], t.Collection) else cols"  # raises IndexError on no arguments
 FLATTEN_SAFE = "cols = flatten(cols) if cols and isinstance(cols[0], t.Collection) else cols"
-EXPRS = "expressions = [Column.ensure_col(x).expression for x in cols]"
-WRAP_RE = re.compile(
-    r"^expressions = \[x if isinstance\(x, exp\.Ordered\) else exp\.Ordered\(this=x(?:, desc=(True|False))?(?:, nulls_first=(True|False))?\) for x in expressions\]$"
-)
-
-
+EXPRS = "expressions = [Column.ensure_col(x).expression for x in cols]"  # keeps the Column's alias (F.<function>() results are auto-aliased)
+EXPRS_UNALIASED = "expressions = [Column.ensure_col(x).column_expression for x in cols]"
 def _copy_flag(line: str, ob: str) -> bool:
     if line == "window_spec = self.copy()":
         return True
@@ -369,9 +366,10 @@ def _copy_flag(line: str, ob: str) -> bool:
 def _partition_by(ws: ast.ClassDef) -> t.List[str]:
     ob = f"{OB}.partitionBy"
     lines = _body_lines(find_func(ws.body, "partitionBy"))
-    if len(lines) < 5 or lines[0] not in (FLATTEN, FLATTEN_SAFE) or lines[1] != EXPRS or lines[-1] != "return window_spec":
+    if len(lines) < 5 or lines[0] not in (FLATTEN, FLATTEN_SAFE) or lines[1] not in (EXPRS, EXPRS_UNALIASED) or lines[-1] != "return window_spec":
         raise Untranslatable(ob, "body shape not recognised")
     indexes_first = lines[0] == FLATTEN
+    keeps_alias = lines[1] == EXPRS
     copies = _copy_flag(lines[2], ob)
     mid = lines[3:-1]
     if mid == [
@@ -391,22 +389,131 @@ def _partition_by(ws: ast.ClassDef) -> t.List[str]:
         f"def partitionByExtends : Bool := {str(extends).lower()}",
         "/-- does `partitionBy()` without arguments evaluate `cols[0]` (IndexError)? -/",
         f"def partitionByIndexesFirst : Bool := {str(indexes_first).lower()}",
+        "/-- does `partitionBy` read `Column.expression` (alias included) rather than `column_expression`? -/",
+        f"def partitionByKeepsAlias : Bool := {str(keeps_alias).lower()}",
     ]
+
+
+# classes of order-key expressions the wrap decision is evaluated for
+KEY_CLASSES = ("Ordered", "Column", "Other")
+# isinstance(x, exp.K) for a key of class c: True / False; anything else is unknown
+ISINSTANCE = {
+    ("Ordered", "Ordered"): True,
+    ("Ordered", "Column"): False,
+    ("Column", "Ordered"): False,
+    ("Column", "Column"): True,
+    ("Column", "Condition"): True,
+    ("Other", "Ordered"): False,
+    ("Other", "Column"): False,
+}
+
+
+class WrapTr:
+    """`expressions = [<elt over x> for x in expressions]` in WindowSpec.orderBy: what becomes of an order key of
+    each class (already an exp.Ordered / a plain exp.Column / any other expression).
+    Sub-language of <elt>: `x`, `exp.Ordered(this=x[, desc=<bool>][, nulls_first=<bool>])`, conditional
+    expressions over `isinstance(x, exp.K)` / `isinstance(x, (exp.K1, exp.K2))`, not / and / or."""
+
+    def __init__(self, ob: str, var: str):
+        self.ob = ob
+        self.var = var
+
+    def isinst(self, cls: str, k: ast.expr) -> bool:
+        if isinstance(k, ast.Tuple):
+            return any(self.isinst(cls, e) for e in k.elts)
+        if isinstance(k, ast.Attribute) and isinstance(k.value, ast.Name) and k.value.id in ("exp", "expression", "expressions"):
+            if k.attr == "Expression":
+                return True
+            v = ISINSTANCE.get((cls, k.attr))
+            if v is None:
+                raise Untranslatable(self.ob, f"isinstance(x, exp.{k.attr}) is not decided for an order key of class {cls}")
+            return v
+        raise Untranslatable(self.ob, f"unsupported class in isinstance: {ast.unparse(k)!r}")
+
+    def test(self, cls: str, node: ast.expr) -> bool:
+        if isinstance(node, ast.BoolOp):
+            vals = [self.test(cls, v) for v in node.values]
+            return all(vals) if isinstance(node.op, ast.And) else any(vals)
+        if isinstance(node, ast.UnaryOp) and isinstance(node.op, ast.Not):
+            return not self.test(cls, node.operand)
+        if (
+            isinstance(node, ast.Call)
+            and isinstance(node.func, ast.Name)
+            and node.func.id == "isinstance"
+            and len(node.args) == 2
+            and isinstance(node.args[0], ast.Name)
+            and node.args[0].id == self.var
+        ):
+            return self.isinst(cls, node.args[1])
+        raise Untranslatable(self.ob, f"unsupported condition {ast.unparse(node)!r}")
+
+    def elt(self, cls: str, node: ast.expr) -> t.Optional[t.Tuple[bool, t.Optional[bool]]]:
+        """None = the key is left as it is; (desc, nulls_first) = wrapped in exp.Ordered"""
+        if isinstance(node, ast.Name) and node.id == self.var:
+            return None
+        if isinstance(node, ast.IfExp):
+            return self.elt(cls, node.body if self.test(cls, node.test) else node.orelse)
+        if isinstance(node, ast.Call) and ast.unparse(node.func) == "exp.Ordered" and not node.args:
+            kws = {kw.arg: kw.value for kw in node.keywords}
+            if set(kws) - {"this", "desc", "nulls_first"} or not (isinstance(kws.get("this"), ast.Name) and kws["this"].id == self.var):
+                raise Untranslatable(self.ob, f"unsupported exp.Ordered call {ast.unparse(node)!r}")
+            vals: t.Dict[str, t.Optional[bool]] = {}
+            for k in ("desc", "nulls_first"):
+                v = kws.get(k)
+                if v is None:
+                    vals[k] = None
+                elif isinstance(v, ast.Constant) and (isinstance(v.value, bool) or v.value is None):
+                    vals[k] = v.value
+                else:
+                    raise Untranslatable(self.ob, f"{k}= is not a literal")
+            return (bool(vals["desc"]), vals["nulls_first"])
+        raise Untranslatable(self.ob, f"unsupported order-key rewrite {ast.unparse(node)!r}")
+
+
+def _wrap_stmt(st: ast.stmt, ob: str) -> t.Optional[t.Dict[str, t.Optional[t.Tuple[bool, t.Optional[bool]]]]]:
+    """the optional `expressions = [... for x in expressions]` statement of orderBy; None when `st` is not one"""
+    if not (
+        isinstance(st, ast.Assign)
+        and len(st.targets) == 1
+        and isinstance(st.targets[0], ast.Name)
+        and st.targets[0].id == "expressions"
+        and isinstance(st.value, ast.ListComp)
+    ):
+        return None
+    lc = st.value
+    if (
+        len(lc.generators) != 1
+        or lc.generators[0].ifs
+        or lc.generators[0].is_async
+        or not isinstance(lc.generators[0].target, ast.Name)
+        or ast.unparse(lc.generators[0].iter) != "expressions"
+    ):
+        raise Untranslatable(ob, f"unsupported rewrite of the order keys: {ast.unparse(st)[:80]!r}")
+    tr = WrapTr(ob, lc.generators[0].target.id)
+    out = {c: tr.elt(c, lc.elt) for c in KEY_CLASSES}
+    if out["Ordered"] is not None:
+        raise Untranslatable(ob, "a key that already is an exp.Ordered is wrapped again")
+    return out
 
 
 def _order_by(ws: ast.ClassDef) -> t.List[str]:
     ob = f"{OB}.orderBy"
-    lines = _body_lines(find_func(ws.body, "orderBy"))
-    if len(lines) < 4 or lines[0] not in (FLATTEN, FLATTEN_SAFE) or lines[1] != EXPRS or lines[-1] != "return window_spec":
+    fn = find_func(ws.body, "orderBy")
+    stmts = [
+        st
+        for st in fn.body
+        if not isinstance(st, (ast.Import, ast.ImportFrom)) and not (isinstance(st, ast.Expr) and isinstance(st.value, ast.Constant))
+    ]
+    lines = _body_lines(fn)
+    if len(lines) < 4 or lines[0] not in (FLATTEN, FLATTEN_SAFE) or lines[1] not in (EXPRS, EXPRS_UNALIASED) or lines[-1] != "return window_spec":
         raise Untranslatable(ob, "body shape not recognised")
     indexes_first = lines[0] == FLATTEN
+    keeps_alias = lines[1] == EXPRS
     rest = lines[2:-1]
-    wrap = "none"
-    if rest and WRAP_RE.match(rest[0]):
-        m = WRAP_RE.match(rest[0])
-        assert m
-        nf = "none" if m.group(2) is None else f"some {m.group(2).lower()}"
-        wrap = f"some ({(m.group(1) or 'False').lower()}, {nf})"
+    wrap: t.Dict[str, t.Optional[t.Tuple[bool, t.Optional[bool]]]] = {c: None for c in KEY_CLASSES}
+    w = _wrap_stmt(stmts[2], ob)
+    if w is not None:
+        wrap = w
         rest = rest[1:]
     if not rest:
         raise Untranslatable(ob, "body shape not recognised")
@@ -423,14 +530,25 @@ def _order_by(ws: ast.ClassDef) -> t.List[str]:
         extends = False
     else:
         raise Untranslatable(ob, f"body shape not recognised: {mid}")
+
+    def show(v: t.Optional[t.Tuple[bool, t.Optional[bool]]]) -> str:
+        if v is None:
+            return "none"
+        nf = "none" if v[1] is None else f"some {str(v[1]).lower()}"
+        return f"some ({str(v[0]).lower()}, {nf})"
+
     return [
         f"def orderByCopies : Bool := {str(copies).lower()}",
         "/-- does `orderBy` extend the ORDER BY list already present (false: it replaces it)? -/",
         f"def orderByExtends : Bool := {str(extends).lower()}",
-        "/-- what `orderBy` does with an order expression that is not an `exp.Ordered`:",
-        "    `none` = left bare (the engine's default null placement applies), `some (desc, nulls_first)` = wrapped -/",
-        f"def orderByBareWrap : Option (Bool × Option Bool) := {wrap}",
+        "/-- what `orderBy` does with an order key that states no ordering (is not an `exp.Ordered`):",
+        "    `none` = left bare (the engine's default null placement applies), `some (desc, nulls_first)` = wrapped.",
+        "    Decided separately for a plain column reference and for any other expression (`-c`, `c + 1`, `CASE …`). -/",
+        f"def orderByColumnWrap : Option (Bool × Option Bool) := {show(wrap['Column'])}",
+        f"def orderByExprWrap : Option (Bool × Option Bool) := {show(wrap['Other'])}",
         f"def orderByIndexesFirst : Bool := {str(indexes_first).lower()}",
+        "/-- does `orderBy` read `Column.expression` (alias included) rather than `column_expression`? -/",
+        f"def orderByKeepsAlias : Bool := {str(keeps_alias).lower()}",
     ]
 
 
